@@ -10,4 +10,11 @@ cd "$VERIF_DIR/harness"
 go build -tags verif -o "$VERIF_DIR/.build/vcheck.setup" ./cmd/vcheck
 GOARCH=386 go build -tags verif -o "$VERIF_DIR/.build/vcheck.setup.386" ./cmd/vcheck
 rm -f "$VERIF_DIR/.build/vcheck.setup" "$VERIF_DIR/.build/vcheck.setup.386"
+# warm the caches for the C12 variants (instrumented overlay build and -race build)
+OV="$VERIF_DIR/.build/setup.ov"
+rm -rf "$OV"; mkdir -p "$OV"
+go run ./cmd/vinstr -repo /repo -out "$OV" -vsched "$VERIF_DIR/harness/vschedsrc/vsched.go.txt" >/dev/null
+go build -overlay "$OV/overlay.json" -tags "verif vsched" -o "$VERIF_DIR/.build/vcheck.setup.sched" ./cmd/vcheck
+go build -race -tags verif -o "$VERIF_DIR/.build/vcheck.setup.race" ./cmd/vcheck
+rm -rf "$OV" "$VERIF_DIR/.build/vcheck.setup.sched" "$VERIF_DIR/.build/vcheck.setup.race"
 echo "setup ok"
